@@ -1,4 +1,5 @@
 import QmiModel.Props.C09
+import QmiModel.Props.C09Conc
 #print axioms QmiModel.RecvQueue.inv_init
 #print axioms QmiModel.RecvQueue.inv_step
 #print axioms QmiModel.RecvQueue.cap_gstep
@@ -16,3 +17,4 @@ import QmiModel.Props.C09
 #print axioms QmiModel.RecvQueue.policy_old
 #print axioms QmiModel.RecvQueue.recv_not_full
 #print axioms QmiModel.RecvQueue.grun_r
+#print axioms QmiModel.RecvConc.gen_progs
